@@ -2419,6 +2419,9 @@ Proof. vm_compute. reflexivity. Qed.
 Lemma src_locks : src_locks_ok = true.
 Proof. vm_compute. reflexivity. Qed.
 
+Lemma src_init : src_init_ok = true.
+Proof. vm_compute. reflexivity. Qed.
+
 
 Theorem crash_safe_src :
   forall (H : list N -> N) (shuffle : nat -> list entry -> list entry),
